@@ -607,6 +607,8 @@ func c05(r *core.Run) {
 	r.Rule("C05/R2", "coin constructors non-negative: the amount of every NewCoin/NewInt64Coin in scope is non-negative in the sign domain, or is a named exception")
 	r.Rule("C05/R3", "user-sized fields validated at the door: MsgPostFile.FileSize and .MaxProofs are rejected below 1 by ValidateBasic, an overflowing product is rejected by the division form, and the wasm entry validates before calling the handler")
 	r.Rule("C05/R4", "no explicit panic, no Must* on non-constant input and no slice allocation sized by anything but a constant or the length of an existing collection in scope (codec Must(Un)Marshal of stored values excepted, see C18/R1)")
+	r.Rule("C05/R7", "no panicking coin subtraction: every sdk.Coins.Sub / Coin.Sub / SubAmount / DecCoins.Sub in scope lies on all paths behind an IsAllGTE / IsGTE test of the same operands")
+	r.Rule("C05/R6", "no panicking narrowing conversion (Int.Int64, Dec.TruncateInt64, ...) in scope is applied to an accumulator — a value that depends on its own previous value through a loop or through a variable updated by a callback: such a sum grows with the state and is bounded by nothing a message validates")
 	r.Rule("C05/R5", "constant indices in scope are behind a length guard, or are index 0 of a strings.Split result")
 	bb, eb := p.BlockEntries()
 	r.Check(len(eb) == 0, "C05/R0", "endblock:empty", "", "all six EndBlock methods are empty", fmt.Sprintf("%d EndBlock methods now do work and must enter the scope", len(eb)))
@@ -624,6 +626,8 @@ func c05(r *core.Run) {
 	}
 	r.Extra["scope_functions"] = len(scope)
 	r.Floor("C05/R0", len(scope), 30, "functions in BeginBlock scope")
+	r.Extra["coin_subtractions_in_scope"] = coinSubtractionsGuarded(r, "C05/R7", core.SortedFuncs(scope))
+	r.Extra["narrowing_conversions_in_scope"] = narrowingOfAccumulators(r, "C05/R6", core.SortedFuncs(scope))
 	c := &c05ctx{r: r, p: p, scope: scope, reach: reach, memo: map[ssa.Value]int{}, why: map[ssa.Value]string{}, door: map[string]bool{}}
 	// ---- R3
 	if vb := p.FuncByName("x/storage/types", "MsgPostFile", "ValidateBasic"); vb == nil {
@@ -720,7 +724,7 @@ func c05(r *core.Run) {
 							continue
 						}
 						t := tbm.Term(sz)
-						okSize := strings.HasPrefix(t, "len(") || strings.HasPrefix(t, "cap(") || strings.HasPrefix(t, "(len(") || strings.HasPrefix(t, "φ")
+						okSize := strings.HasPrefix(t, "len(") || strings.HasPrefix(t, "cap(") || strings.HasPrefix(t, "(len(") || strings.HasPrefix(t, "φ") || sizeOfCollections(sz, 0)
 						r.Check(okSize, "C05/R4", core.FnName(fn)+":make-size", p.InstrPos(x), "slice size taken from an existing collection", "a slice is allocated in block processing with a size that is not a constant or the length of an existing collection ("+t+"): a stored, user-chosen number there panics in makeslice (or exhausts memory) and halts the chain")
 					}
 				case *ssa.IndexAddr, *ssa.Index:
@@ -790,4 +794,36 @@ func divKey(p *core.Program, v ssa.Value, at ssa.Instruction) string {
 		parts = parts[:4]
 	}
 	return strings.Join(parts, "+")
+}
+
+// sizeOfCollections: the size is computed from lengths of existing collections and constants only: len / cap, sums and
+// constant multiples of such, the encoded-length helpers of the encoding packages applied to such.
+func sizeOfCollections(v ssa.Value, depth int) bool {
+	if depth > 8 {
+		return false
+	}
+	switch x := v.(type) {
+	case *ssa.Const:
+		return true
+	case *ssa.Convert:
+		return sizeOfCollections(x.X, depth+1)
+	case *ssa.BinOp:
+		switch x.Op {
+		case token.ADD:
+			return sizeOfCollections(x.X, depth+1) && sizeOfCollections(x.Y, depth+1)
+		case token.MUL:
+			_, cx := x.X.(*ssa.Const)
+			_, cy := x.Y.(*ssa.Const)
+			return (cx || cy) && sizeOfCollections(x.X, depth+1) && sizeOfCollections(x.Y, depth+1)
+		}
+	case *ssa.Call:
+		if b, ok := x.Call.Value.(*ssa.Builtin); ok {
+			return b.Name() == "len" || b.Name() == "cap"
+		}
+		name := core.CalleeFullName(x)
+		if strings.HasPrefix(name, "encoding/") && strings.HasSuffix(name, "EncodedLen") && len(x.Call.Args) >= 1 {
+			return sizeOfCollections(x.Call.Args[len(x.Call.Args)-1], depth+1)
+		}
+	}
+	return false
 }
